@@ -278,6 +278,18 @@ def node(w, hist, cfg, res):
                     # "a pack that cannot complete": whatever it raised, the
                     # storage must be unchanged and usable
                     res.outcome('pack-failed-' + r.name)
+                    # ... and nothing in these histories (no concurrency, no
+                    # fault, no damage) is a reason not to complete
+                    # (except a garbage collection that meets a reference
+                    # to an object that does not exist, in a state at or
+                    # after T: the object graph itself is broken)
+                    dangling = gc and any(
+                        ref not in graphs[jj][0]
+                        for jj in range(j, len(tids) + 1)
+                        for o in graphs[jj][1] for ref in graphs[jj][0][o])
+                    if not (r.name == 'KeyError' and dangling):
+                        bad('refused', '%s:%s' % (tag, r.name),
+                            dict(pack=label, gc=gc, error=repr(r)))
                     probe = call(pw.storage.undoLog, 0, 5) \
                         if w.flavor == 'F' else None
                     if isinstance(probe, Exc) and probe.name == 'UndoError':
